@@ -52,7 +52,7 @@ def AgreeAmong (c : Cluster) (S : List Nat) (k : Nat) : Prop :=
   ∀ i ∈ S, ∀ j ∈ S, ∀ (si sj : Shard), c.nodes[i]? = some si → c.nodes[j]? = some sj →
     (NMap.get si.keys k).map RV.strip = (NMap.get sj.keys k).map RV.strip
 
-theorem same_absorbed_among {U : List Msg} {k K : Nat} {c : Cluster} (hj : J U k K c)
+theorem same_absorbed_among {U : List Msg} {k K : Nat} {c : Cluster} (hj : J U k K c) (hsl : SentLog c)
     {S : List Nat} (hd : DeliveredTo c S k) (i j : Nat) (hjS : j ∈ S) :
     ∀ v, v ∈ c.absorbed i k → v ∈ c.absorbed j k := by
   intro v hv
@@ -64,7 +64,7 @@ theorem same_absorbed_among {U : List Msg} {k K : Nat} {c : Cluster} (hj : J U k
     obtain ⟨m, hm, hmk, hmv⟩ := hj.log_sent a ha
     have hmk' : m.key = k := by rw [hmk]; exact hcond.2
     by_cases ho : j = m.origin
-    · refine ⟨⟨m.origin, m.key, m.val⟩, hj.sent_log m hm, ?_⟩
+    · refine ⟨⟨m.origin, m.key, m.val⟩, hsl m hm, ?_⟩
       simp [ho, hmk', hmv, hav]
     · refine ⟨⟨j, k, m.val⟩, hd m hm hmk' j hjS ho, ?_⟩
       simp [hmv, hav]
@@ -83,7 +83,8 @@ theorem rs_converges_among (n : Nat) (causal : Bool) (evs : List Ev) (k K : Nat)
   intro i hiS j hjS si sj hsi hsj
   rw [hj.value i si hsi, hj.value j sj hsj]
   exact foldOpt_eq_of_same_elems hc.1 (absorbed_in_carrier hc hj i) (absorbed_in_carrier hc hj j)
-    (fun v => ⟨same_absorbed_among hj hd i j hjS v, same_absorbed_among hj hd j i hiS v⟩)
+    (fun v => ⟨same_absorbed_among hj (sentLog_run _ evs (sentLog_init n causal)) hd i j hjS v,
+      same_absorbed_among hj (sentLog_run _ evs (sentLog_init n causal)) hd j i hiS v⟩)
 
 theorem delivered_to_all (c : Cluster) (k : Nat) :
     Delivered c k ↔ DeliveredTo c (List.range c.nodes.length) k := by
@@ -93,22 +94,6 @@ theorem delivered_to_all (c : Cluster) (k : Nat) :
   · intro h m hm hk j hj ho; exact h m hm hk j (List.mem_range.mpr hj) ho
 
 /-! ## refinement -/
-
-/-- no node lists itself among its peers -/
-def WellConfigured (cfgs : List NodeCfg) : Prop :=
-  ∀ p ∈ (List.range cfgs.length).zip cfgs, p.1 ∉ p.2.peers
-
-instance (cfgs : List NodeCfg) : Decidable (WellConfigured cfgs) := by
-  unfold WellConfigured; infer_instance
-
-theorem WellConfigured.get {cfgs : List NodeCfg} (hw : WellConfigured cfgs) (i : Nat) (cfg : NodeCfg)
-    (h : cfgs[i]? = some cfg) : i ∉ cfg.peers := by
-  have hlt : i < cfgs.length := (List.getElem?_eq_some_iff.mp h).1
-  have : (i, cfg) ∈ (List.range cfgs.length).zip cfgs := by
-    apply List.mem_of_getElem? (i := i)
-    rw [List.getElem?_zip_eq_some]
-    exact ⟨List.getElem?_range hlt, h⟩
-  exact hw (i, cfg) this
 
 theorem init_nodes_get (causal : Bool) (cfgs : List NodeCfg) (i : Nat) (nd : MNode)
     (h : (MCluster.init causal cfgs).nodes[i]? = some nd) :
@@ -120,18 +105,14 @@ theorem init_nodes_get (causal : Bool) (cfgs : List NodeCfg) (i : Nat) (nd : MNo
   simp only [Option.some.injEq] at hr
   exact ⟨p.2, hc, by rw [← hnd, ← hr]⟩
 
-theorem init_inv (causal : Bool) (cfgs : List NodeCfg) (hw : WellConfigured cfgs) :
-    MInv (MCluster.init causal cfgs) := by
-  refine ⟨?_, ?_, ?_, ?_⟩
+theorem init_inv (causal : Bool) (cfgs : List NodeCfg) : MInv (MCluster.init causal cfgs) := by
+  refine ⟨?_, ?_, ?_⟩
   · intro i nd h m hm
     obtain ⟨cfg, _, rfl⟩ := init_nodes_get causal cfgs i nd h
     simp [initNode, PShard.init] at hm
   · intro i nd h m hm
     obtain ⟨cfg, _, rfl⟩ := init_nodes_get causal cfgs i nd h
     simp [initNode, GState.init, MCluster.deltasOf] at hm
-  · intro i nd h
-    obtain ⟨cfg, hc, rfl⟩ := init_nodes_get causal cfgs i nd h
-    exact hw.get i cfg hc
   · intro pk hpk; simp [MCluster.init] at hpk
 
 theorem init_abs (causal : Bool) (cfgs : List NodeCfg) :
@@ -154,37 +135,36 @@ theorem init_abs (causal : Bool) (cfgs : List NodeCfg) :
       apply List.getElem?_eq_none; simp only [List.length_range]; omega
     rw [h1, h2]; rfl
 
-/-- **the message level refines the cluster model**: for all capacities, configurations (no node
-    its own peer), and event lists — client commands, gossip ticks with arbitrary send failures,
+/-- **the message level refines the cluster model**: for all capacities, configurations (a node
+    may even list itself as a peer: its own deltas then come back to it, which the cluster model
+    allows), and event lists — client commands, gossip ticks with arbitrary send failures,
     heartbeats, router changes, receptions in any order / multiplicity, oversized frames — the
     replication states, the history of issued deltas and the absorption log are those of a
     layer-1 execution whose local operations are exactly the client commands, in order; all its
     other events are `deliver`s. -/
-theorem msg_refines_cluster (cp : Caps) (causal : Bool) (cfgs : List NodeCfg)
-    (hw : WellConfigured cfgs) (evs : List MEv) :
+theorem msg_refines_cluster (cp : Caps) (causal : Bool) (cfgs : List NodeCfg) (evs : List MEv) :
     ∃ es : List Ev,
       ((MCluster.init causal cfgs).run cp evs).abs = (Cluster.init cfgs.length causal).run es ∧
       es.filter isLoc = evs.flatMap locOf := by
-  obtain ⟨_, es, h, hf⟩ := run_sim cp evs (MCluster.init causal cfgs) (init_inv causal cfgs hw)
+  obtain ⟨_, es, h, hf⟩ := run_sim cp evs (MCluster.init causal cfgs) (init_inv causal cfgs)
   exact ⟨es, by rw [h, init_abs], hf⟩
 
 /-- the layer-1 convergence theorem, stated of the message-level execution itself -/
 theorem msg_level_converges_among (cp : Caps) (causal : Bool) (cfgs : List NodeCfg)
-    (hw : WellConfigured cfgs) (evs : List MEv) (k K : Nat) (S : List Nat)
+    (evs : List MEv) (k K : Nat) (S : List Nat)
     (hk : KindStable ((MCluster.init causal cfgs).run cp evs).abs k K)
     (hd : DeliveredTo ((MCluster.init causal cfgs).run cp evs).abs S k) :
     AgreeAmong ((MCluster.init causal cfgs).run cp evs).abs S k := by
-  obtain ⟨es, h, _⟩ := msg_refines_cluster cp causal cfgs hw evs
+  obtain ⟨es, h, _⟩ := msg_refines_cluster cp causal cfgs evs
   rw [h] at hk hd ⊢
   exact rs_converges_among _ causal es k K S hk hd
 
 /-- every delta on the wire, in any queue, of any message-level execution is dominated, and every
     node satisfies the clock invariant (C08) — lifted from layer 1 -/
-theorem msg_level_dominated (cp : Caps) (causal : Bool) (cfgs : List NodeCfg)
-    (hw : WellConfigured cfgs) (evs : List MEv) :
+theorem msg_level_dominated (cp : Caps) (causal : Bool) (cfgs : List NodeCfg) (evs : List MEv) :
     (∀ nd ∈ ((MCluster.init causal cfgs).run cp evs).nodes, nd.ps.sh.Inv) ∧
     (∀ m ∈ ((MCluster.init causal cfgs).run cp evs).issued, m.val.Dominated) := by
-  obtain ⟨es, h, _⟩ := msg_refines_cluster cp causal cfgs hw evs
+  obtain ⟨es, h, _⟩ := msg_refines_cluster cp causal cfgs evs
   have := sent_dominated_of_run cfgs.length causal es
   rw [← h] at this
   refine ⟨?_, this.2⟩
@@ -292,7 +272,7 @@ def nonOwnerRun : List MEv :=
 
 theorem non_owner_writer_stays_stale :
     let c := (MCluster.init false ownerCfgs).run caps nonOwnerRun
-    WellConfigured ownerCfgs ∧ c.lost = [] ∧ c.wire.length = 3 ∧
+    c.lost = [] ∧ c.wire.length = 3 ∧
     DeliveredTo c.abs [0, 1] kX ∧ KindStable c.abs kX 0 ∧
     valueAt c 0 kX = some (some [98]) ∧ valueAt c 1 kX = some (some [98]) ∧
     valueAt c 3 kX = some (some [97]) ∧ ¬ Delivered c.abs kX := by
@@ -310,7 +290,6 @@ def goodMsgRun : List MEv :=
 
 example :
     let c := (MCluster.init true [bcast 3 1 false, bcast 3 2 false, bcast 3 3 false]).run caps goodMsgRun
-    WellConfigured [bcast 3 1 false, bcast 3 2 false, bcast 3 3 false] ∧
     KindStable c.abs kX 0 ∧ c.issued.length = 4 ∧ c.wire.length = 9 ∧
     DeliveredTo c.abs [0, 1] kX ∧ ¬ Delivered c.abs kX ∧ c.lost.length = 1 := by
   decide
